@@ -94,12 +94,14 @@ prop("C04", level="proof", bounded=True,
           "truth tables stated by membership, not by a merge recursion: strictly ascending output, every output coordinate is in the right operands with "
           "the operands' own payload objects (identity), a fresh default box for the absent side, mask naming exactly the sides present, and completeness "
           "(every coordinate of the set operation is yielded) -- for all operand sequences, all interleavings, all three tail loops; operands unmodified "
-          "(frame). iterRange (what a fiber presents: in-range, non-empty, own payload objects, ascending; valid start_pos irrelevant) is proved likewise. "
-          "Bounded only: tuple coordinates and mixed arity, n-ary unrolling and leader-follower, uncompressed ranks, interior ranks (default sub-fiber synthesis).",
-     note="Trusted: pyvc, z3/cvc5; the sequence a fiber's iterator yields is taken strictly ascending (iterRange proves it for the compressed format; the "
-          "format dispatch of __iter__ is tier B); _createDefault leaf contract (tier B). Known finding: a - b with an uncompressed a.",
-     also=["iterRange", "Payload.isEmpty"],
-     trusted_base=["__iter__ format dispatch (tier B)", "Fiber._createDefault leaf contract (tier B)", "Fiber.isEmpty ghost abstraction (tier B)"])
+          "(frame). What a fiber presents is proved too: Fiber.__iter__'s format dispatch (owner / rank attributes -> iterOccupancy = iterRange(None, None) for a "
+          "compressed rank, iterActiveShape = iterRangeShape over the active range for an uncompressed leaf rank) yields a strictly ascending sequence and touches "
+          "nothing, from iterRange (in-range, non-empty, own payload objects, ascending; valid start_pos irrelevant) and iterRangeShape, both proved. "
+          "Bounded only: tuple coordinates and mixed arity, n-ary unrolling and leader-follower, uncompressed interior ranks, interior ranks (default sub-fiber synthesis).",
+     note="Trusted: pyvc, z3/cvc5; _createDefault leaf contract (tier B); getActive() abstracted by ghost fields (tier T). Operands are traversed compressed (any rank) or "
+          "uncompressed at a leaf rank holding boxes. Known finding: a - b with an uncompressed a.",
+     also=["iterRange", "Payload.isEmpty", "iterators.py::__iter__", "iterOccupancy", "iterActiveShape"],
+     trusted_base=["Fiber._createDefault leaf contract (tier B)", "Fiber.isEmpty ghost abstraction (tier B)", "Fiber.getActive ghost active range (tier T)"])
 
 prop("C07", level="proof", bounded=True,
      technique="deductive: iterRange loop invariant against the filter spec, search contracts (pyvc, z3/cvc5); bounded enumeration of every traversal mode",
@@ -108,12 +110,15 @@ prop("C07", level="proof", bounded=True,
           "addressing the last element yielded. iterRangeShape is proved (any step >= 1) to visit exactly range(start, end, step), each coordinate with the "
           "stored payload object or a fresh default box, leaving the tree untouched; iterRangeShapeRef is proved (step 1) to insert exactly the visited absent "
           "coordinates, deliver the stored payload objects and disturb no other element; the populate generator that drives output traversal is proved under C05. "
-          "Bounded only: the wrappers (iterShape/Active/...), format dispatch, iterRangeShapeRef with other steps (non-linear visited-set clause), lazy fibers (repeatable, "
+          "The wrappers iterOccupancy and iterActiveShape and the format dispatch of Fiber.__iter__ (compressed -> stored non-empty elements ascending; uncompressed "
+          "leaf -> every coordinate of the active range with a box) are proved from those contracts. "
+          "Bounded only: the other wrappers (iterShape/iterActive/...Ref), iterRangeShapeRef with other steps (non-linear visited-set clause), lazy fibers (repeatable, "
           "materialise to equal eager fibers), projection (incl. reversal and intervals) and pruning: exhaustive over all fibers on 3 (quick) / 4 "
           "(thorough) coordinates, all ranges, steps, active ranges, start positions, both formats, affine transforms +-c+k, intervals.",
      note="Trusted: pyvc, z3/cvc5, tier-B contracts of getDefault/isEmpty (ghost default / emptiness).",
-     also=["iterRange", "iterRangeShape", "iterRangeShapeRef", "Fiber._coord2pos", "Fiber.getPayload", "Fiber.getPayloadRef", "Fiber.setSavedPos", "Payload.isEmpty"],
-     trusted_base=["Fiber.getDefault / Fiber.isEmpty ghost abstractions (tier B)"])
+     also=["iterRange", "iterRangeShape", "iterRangeShapeRef", "Fiber._coord2pos", "Fiber.getPayload", "Fiber.getPayloadRef", "Fiber.setSavedPos", "Payload.isEmpty",
+           "iterators.py::__iter__", "iterOccupancy", "iterActiveShape"],
+     trusted_base=["Fiber.getDefault / Fiber.isEmpty ghost abstractions (tier B)", "Fiber.getActive ghost active range (tier T)"])
 
 prop("C05", level="exploration", bounded=True,
      technique="deductive contract on the real lshift generator at a leaf destination rank (pyvc, ~1240 obligations) + bounded executable contract over an enumerated small scope for nesting, interior ranks and tracing",
@@ -158,9 +163,10 @@ prop("C12", level="exploration", bounded=True,
           "equality in both directions over all depth-1 pairs, sampled depth-2 pairs and pairs differing in a single deep leaf at depth 2-3, free-standing "
           "and as tensors of different shapes; transitivity over triples; operands snapshotted. Proved core: Fiber.__eq__ is a loop over a | b, whose "
           "iterator is proved to deliver exactly the union with masks naming the sides present (C04), and Payload ==/!= / Payload.isEmpty are proved "
-          "(C11). The depth recursion of __eq__/isEmpty/countValues (map/lambda/all, default __ne__) is outside pyvc's subset.",
-     note="Exploration level. Trusted for the proved core: pyvc, z3/cvc5.",
-     also=["__or__.or_iterator.__iter__", "Payload.__eq__", "Payload.__ne__", "Payload.isEmpty"],
+          "(C11); countValues of a leaf-rank fiber is proved to return the defined count of boxes whose value differs from the fiber's default, for both "
+          "`recursive` settings, leaving the fiber untouched. The depth recursion of __eq__/isEmpty/countValues (map/lambda/all, default __ne__) is outside pyvc's subset.",
+     note="Exploration level. Trusted for the proved core: pyvc, z3/cvc5, the ghost default of getDefault (tier B).",
+     also=["__or__.or_iterator.__iter__", "Payload.__eq__", "Payload.__ne__", "Payload.isEmpty", "Fiber.countValues"],
      trusted_base=[])
 
 prop("C10", level="exploration", bounded=True,
@@ -276,9 +282,8 @@ prop("C20", level="exploration", bounded=True,
           "coordToHandle of every C leaf for every query; getSize of leaf fibers.",
      note="Exploration level: the end-to-end round trip is decided only within the stated bounds. Assumed (external, no source in the repository): the cache object plugged into "
           "an encoded fiber and the statistics / output dictionaries touch only their own state; math.ceil/floor(i / c) and float(i) on ints are exact (true below 2**53); "
-          "Fiber.__iter__ presents a strictly ascending sequence of boxes at a leaf (tier B, exercised by C07's bounded part). getSize is checked for leaf fibers only.",
+          "Fiber.__iter__ (proved, C07) presents a strictly ascending sequence of boxes at a leaf. getSize is checked for leaf fibers only.",
      trusted_base=["external Cache / StatsDict / OutDict / OutList objects touch only their own state (trusted contracts)",
-                   "Fiber.__iter__ tier-B contract: strictly ascending presented sequence, boxes at a leaf rank, coordinates stored or inside the active range",
                    "math.ceil / math.floor / float on ints treated as exact integer arithmetic"])
 
 prop("C17", level="exploration", bounded=True,
